@@ -916,8 +916,12 @@ def _(H):
     if q < 0.8:
         H.model.objective = {own: 2, foreign: 1}
         return {"form": "dict: model reaction, then a reaction outside the model"}
-    set_objective(H.model, {own: 2.0, foreign: 1.0}, additive=True)
-    return {"form": "set_objective(additive=True) with a reaction outside the model"}
+    if q < 0.9:
+        set_objective(H.model, {own: 2.0, foreign: 1.0}, additive=True)
+        return {"form": "set_objective(additive=True) with a reaction outside the model"}
+    other = H.rxn()
+    H.model.objective = {own: 1.5, other: H.rng.choice(["abc", None, [1]])}
+    return {"form": "dict with a coefficient that is not a number"}
 
 
 @op("reaction.objective_coefficient=", "edit", "rev", weight=1.5)
